@@ -100,6 +100,32 @@ Definition read_chunk (site : string) (rest : bytes) : res (bytes * bytes * N) :
   do body <- go_take site l rest1;
   Ok (body, rest1, Z.to_N n).
 
+(** the entry loops of JSONArrayCodec.Read / JSONMapCodec.Read, parameterised
+    by the reader of one entry body *)
+Fixpoint jelems (kv : bytes -> res (bytes * jv * N)) (k : nat) (cnt : N) (rest : bytes) (consumed : N)
+         (acc : list jv) {struct k} : res (list jv * N) :=
+  if cnt =? 0 then Ok (rev acc, consumed) else
+  match k with
+  | O => Hang "JSONArrayCodec.Read loop"
+  | S k' =>
+    do (body, r1, kn) <- read_chunk "JSONArrayCodec.Read entry" rest;
+    do (_, x, used) <- kv body;
+    do r2 <- go_drop "JSONArrayCodec.Read entry" used r1;
+    jelems kv k' (cnt - 1) r2 (consumed + kn + used) (x :: acc)
+  end.
+
+Fixpoint jentries (kv : bytes -> res (bytes * jv * N)) (k : nat) (cnt : N) (rest : bytes) (consumed : N)
+         (m : list (bytes * jv)) {struct k} : res (list (bytes * jv) * N) :=
+  if cnt =? 0 then Ok (m, consumed) else
+  match k with
+  | O => Hang "JSONMapCodec.Read loop"
+  | S k' =>
+    do (body, r1, kn) <- read_chunk "JSONMapCodec.Read entry" rest;
+    do (key, x, used) <- kv body;
+    do r2 <- go_drop "JSONMapCodec.Read entry" used r1;
+    jentries kv k' (cnt - 1) r2 (consumed + kn + used) (assoc_set key x m)
+  end.
+
 (** state of readJSONKV: key, type code, value *)
 Fixpoint jread_kv (fuel : nat) (haskey : bool) (rest : bytes) (consumed : N)
          (key : bytes) (jt : N) (val : jv) {struct fuel} : res (bytes * jv * N) :=
@@ -167,16 +193,7 @@ with jread_arr (fuel : nat) (data : bytes) {struct fuel} : res (list jv * N) :=
     if (n <? 0)%Z then Err else
     if len data - Z.to_N n <? count then Err else
     do rest <- go_drop "JSONArrayCodec.Read data[offset:]" (Z.to_N n) data;
-    (fix elems (k : nat) (cnt : N) (rest : bytes) (consumed : N) (acc : list jv) {struct k} : res (list jv * N) :=
-       if cnt =? 0 then Ok (rev acc, consumed) else
-       match k with
-       | O => Hang "JSONArrayCodec.Read loop"
-       | S k' =>
-         do (body, r1, kn) <- read_chunk "JSONArrayCodec.Read entry" rest;
-         do (_, x, used) <- jread_kv f false body 0 [] 0 JNil;
-         do r2 <- go_drop "JSONArrayCodec.Read entry" used r1;
-         elems k' (cnt - 1) r2 (consumed + kn + used) (x :: acc)
-       end) (S (length data)) count rest (Z.to_N n) []
+    jelems (fun body => jread_kv f false body 0 [] 0 JNil) (S (length data)) count rest (Z.to_N n) []
   end
 
 (** JSONMapCodec.Read into [prior] *)
@@ -189,16 +206,7 @@ with jread_map (fuel : nat) (data : bytes) (prior : list (bytes * jv)) {struct f
     if (n <? 0)%Z then Err else
     if len data - Z.to_N n <? count then Err else
     do rest <- go_drop "JSONMapCodec.Read data[offset:]" (Z.to_N n) data;
-    (fix entries (k : nat) (cnt : N) (rest : bytes) (consumed : N) (m : list (bytes * jv)) {struct k} : res (list (bytes * jv) * N) :=
-       if cnt =? 0 then Ok (m, consumed) else
-       match k with
-       | O => Hang "JSONMapCodec.Read loop"
-       | S k' =>
-         do (body, r1, kn) <- read_chunk "JSONMapCodec.Read entry" rest;
-         do (key, x, used) <- jread_kv f true body 0 [] 0 JNil;
-         do r2 <- go_drop "JSONMapCodec.Read entry" used r1;
-         entries k' (cnt - 1) r2 (consumed + kn + used) (assoc_set key x m)
-       end) (S (length data)) count rest (Z.to_N n) prior
+    jentries (fun body => jread_kv f true body 0 [] 0 JNil) (S (length data)) count rest (Z.to_N n) prior
   end.
 
 Definition jfuel (data : bytes) : nat := 2 * length data + 2.
